@@ -13,4 +13,3 @@ for f in mutants/*.diff seeded/*/patch.diff; do
   inv=$(echo "$out" | grep "^violation:" | head -1 | cut -c1-160)
   if [ $rc -eq 1 ]; then echo "killed    $f [$ID] ($n) $inv"; elif [ $rc -eq 0 ]; then echo "SURVIVED  $f"; else echo "INFRA($rc) $f: $(echo "$out" | tail -3)"; fi
 done
-rm -rf /tmp/verif-replays-other-tree
